@@ -300,3 +300,31 @@ def unescape_writes(ctx, s):
     ctx.floor("S-ENCODE.encode_utf8 sites", len(enc), 1)
     ctx.instances["S-ENCODE.byte stores"] = n
     ctx.instances["S-ENCODE.copies"] = copies
+
+
+def utf8_width_table(ctx, s):
+    """S-TABLE: encode_utf8 writes 1 byte below 0x80, 2 below 0x800, 3 below 0x10000, 4 above - decided by evaluating its
+    branch conditions at each boundary code point (the length it returns on its Ok paths)"""
+    from ..srules import eval_fn_scalar_all
+    fn = ctx.fn("pocket_types::json::utf8::encode_utf8")
+    ctx.functions.add(fn.path)
+    want = {0x00: 1, 0x7F: 1, 0x80: 2, 0x7FF: 2, 0x800: 3, 0xFFFF: 3, 0x10000: 4, 0x10FFFF: 4}
+    bad = []
+    unknown = []
+    for cp, n in sorted(want.items()):
+        rs = eval_fn_scalar_all(s, fn, lambda y: y == ("param", 1), cp)
+        oks = {r[1] for r in rs if isinstance(r, tuple) and r[0] == "Ok"}
+        if None in rs or not oks:
+            unknown.append(cp)
+        elif oks != {n}:
+            bad.append((cp, sorted(oks), n))
+    if bad:
+        s.add("S-TABLE", fn, "utf8-width-boundaries", "0x80/0x800/0x10000", fn.sp, VIOLATION,
+              "encode_utf8 writes %s bytes for U+%04X (UTF-8 needs %d): an escape of that code point decodes to a different string"
+              % ("/".join(map(str, bad[0][1])), bad[0][0], bad[0][2]))
+    elif unknown:
+        s.add("S-TABLE", fn, "utf8-width-boundaries", "0x80/0x800/0x10000", fn.sp, UNDECIDED,
+              "the encoded length could not be evaluated for %s" % ", ".join("U+%04X" % c for c in unknown[:4]))
+    else:
+        s.add("S-TABLE", fn, "utf8-width-boundaries", "0x80/0x800/0x10000", fn.sp, PROVED,
+              "1 byte below 0x80, 2 below 0x800, 3 below 0x10000, 4 above (evaluated at the 8 boundary code points)")
